@@ -488,6 +488,7 @@ func runC20(c *worker.Ctx) {
 	var rd *simio.Reader
 	var plan simio.Plan
 	injected := map[string]bool{}
+	loopEvery := 0
 	// Terraform path: the plan may hold further services; cmd/falco builds one
 	// fetcher for the plan and, service after service, selects it with SetName
 	// and generates. Every service must get exactly its own resources.
@@ -522,6 +523,11 @@ func runC20(c *worker.Ctx) {
 		defer simhook.UninstallPanicHook()
 		simmap.Install(func(n int) []int { return c.T.Perm(n) })
 		defer simmap.Uninstall()
+		// preemption inside the loops of snippet/… (rendering, escaping): off in
+		// half of the cases, else every k-th loop iteration is a scheduling point
+		loopEvery = []int{0, 0, 0, 1, 5, 40}[c.T.Draw(6)]
+		simhook.SetLoopEvery(loopEvery)
+		defer simhook.SetLoopEvery(0)
 		done := make(chan struct{}, 1)
 		go s.Run()
 		if terra {
@@ -615,6 +621,10 @@ func runC20(c *worker.Ctx) {
 	simhook.Uninstall()
 	simhook.UninstallPanicHook()
 	simmap.Uninstall()
+	simhook.SetLoopEvery(0)
+	if loopEvery > 0 {
+		res.Probe("preempted_inside_rendering_loops")
+	}
 	path := "remote"
 	if terra {
 		path = "terraform"
